@@ -328,6 +328,41 @@ impl Worker {
         }
     }
 
+    /// Replay every committed libFuzzer artifact `regress/<ID>/*.fuzz` through the property's fuzz
+    /// entry (these are the deterministic probes of findings that the fuzz targets produced).
+    pub fn regress_fuzz(&mut self, f: fn(&[u8]) -> Option<Violation>) {
+        if self.shard != 0 {
+            return;
+        }
+        let dir = verif_root().join("regress").join(self.id);
+        let mut files: Vec<PathBuf> = match std::fs::read_dir(&dir) {
+            Ok(rd) => rd.filter_map(|e| e.ok()).map(|e| e.path()).filter(|p| p.extension().map_or(false, |x| x == "fuzz")).collect(),
+            Err(_) => return,
+        };
+        files.sort();
+        #[derive(Serialize)]
+        struct Artifact {
+            file: String,
+            bytes: Vec<u8>,
+        }
+        let items: Vec<Artifact> = files.iter().filter_map(|p| std::fs::read(p).ok().map(|b| Artifact { file: p.file_name().unwrap().to_string_lossy().into_owned(), bytes: b })).collect();
+        if items.is_empty() {
+            return;
+        }
+        let saved = self.nshards;
+        let saved_shard = self.shard;
+        // all artifacts on this shard
+        self.nshards = 1;
+        self.shard = 0;
+        self.exhaustive("regress-fuzz-artifacts", "committed libFuzzer artifacts", items.into_iter(), |_, a| match proc::catch(|| f(&a.bytes)) {
+            Ok(None) => Pass::new(true).class("fuzz-artifact-replayed").ok(),
+            Ok(Some(v)) => Outcome::Fail(v),
+            Err(p) => fail(format!("panic:{}", p.split(": ").next().unwrap_or("?")), p),
+        });
+        self.nshards = saved;
+        self.shard = saved_shard;
+    }
+
     /// Enumerate a finite space completely (partitioned over the shards by index).
     pub fn exhaustive<C: Serialize>(
         &mut self,
